@@ -241,6 +241,9 @@ func cmdCheck(args []string) int {
 					if o2.Res != nil {
 						o2.Err = "first attempt produced no result: " + tail(o.Stderr, 500)
 						o = o2
+						if o.Res.Stats == nil {
+							o.Res.Stats = map[string]int64{}
+						}
 						o.Res.Stats["retried"] = 1
 					}
 				}
@@ -337,6 +340,12 @@ func cmdCheck(args []string) int {
 				si := sigs[v.Signature]
 				if si == nil {
 					si = &sigInfo{Sig: v.Signature, FirstCase: r.Case, Tape: r.Tape, Detail: v.Detail}
+					var dd struct {
+						Repro json.RawMessage `json:"repro_tape"`
+					}
+					if json.Unmarshal(v.Detail, &dd) == nil && len(dd.Repro) > 2 {
+						si.Tape = dd.Repro // the engine narrowed the batch down to the one failing delivery
+					}
 					sigs[v.Signature] = si
 				}
 				si.Count++
